@@ -8,7 +8,7 @@ From Model Require Import PyBase Graph PeriodicTable Stereo Writer.
 From Gen Require Import Elements SmilesTables.
 From Coq Require Import Permutation.
 From Proofs Require Import WriterProofs WriterProofsAtom WriterProofsTokens WriterProofsStream WriterProofsClosures WriterProofsRefuted
-                           WriterWfAtoms WriterWfFlatten WriterWfStream.
+                           WriterWfAtoms WriterWfFlatten WriterWfStream WriterWfDfs WriterWfEvents WriterWfTree WriterWfClosures WriterWfParens.
 Import ListNotations.
 Open Scope Z_scope.
 
@@ -289,3 +289,68 @@ Theorem C02_writer_tokenizes_example :
                        wtoks_of out = Some ts /\ tokenize "[nH]1cccc1.[Na+]" = Ok (map rt_of ts).
 Proof. exact writer_tokenizes_example. Qed.
 Print Assumptions C02_writer_tokenizes_example.
+
+(* ---- writer_wellformed, traversal part: invariants of the DFS for ANY sort key, weights and number of steps ---- *)
+
+Theorem C02_wf_mol_graph : forall g, wf_mol g = true -> loop_free g /\ adj_sym g.
+Proof. exact wf_mol_graph. Qed.
+Print Assumptions C02_wf_mol_graph.
+
+(* whatever traverse returns: every tree edge and every ring-closure pair is a bond of the molecule (nothing is written that
+   is not there), every cycle number of this component sits in the closure lists of exactly two different atoms, once in each *)
+Theorem C02_traverse_invariant : forall g w tb o all st t, loop_free g -> adj_sym g ->
+  traverse g w tb o all st = Ok t -> DI g (ws_cycle st) (tr_dfs t).
+Proof. exact traverse_DI. Qed.
+Print Assumptions C02_traverse_invariant.
+
+(* hence the closure lists of ANY traversal satisfy wf_events, the hypothesis of C02_closure_numbers_consistent.
+   _partial: still assumes that the flattened token list mentions no ring atom twice (NoDup of the ring positions) *)
+Theorem C02_traverse_wf_events_partial : forall g w tb o all st t, loop_free g -> adj_sym g ->
+  traverse g w tb o all st = Ok t ->
+  forall smi open seen,
+    let tokens := ds_tokens (tr_dfs t) in
+    let ro := ring_positions tokens smi 0 in
+    NoDup (map fst ro) -> (forall c, In c open -> In c seen) -> (forall c, In c seen -> c <= ws_cycle st) ->
+    wf_events open seen (map (fun a => map snd (atom_closures tokens ro (fst a))) ro).
+Proof. exact traverse_wf_events. Qed.
+Print Assumptions C02_traverse_wf_events_partial.
+
+(* the table `edges` of ANY traversal is a forest: duplicate-free children lists, unique parents, the start atom nobody's child *)
+Theorem C02_traverse_forest : forall g w tb o all st t, traverse g w tb o all st = Ok t ->
+  Forest (ds_edges (tr_dfs t)) (tr_start t).
+Proof. exact traverse_forest. Qed.
+Print Assumptions C02_traverse_forest.
+
+(* the flattening loop never writes an atom twice, for ANY traversal (invariant of fl_step on forests) *)
+Theorem C02_flatten_nodup : forall g w tb o all st t smi, traverse g w tb o all st = Ok t -> flatten g t = Ok smi ->
+  NoDup (atoms_of smi).
+Proof. exact flatten_nodup. Qed.
+Print Assumptions C02_flatten_nodup.
+
+(* the closure lists of ANY traversal of a loop-free symmetric molecule satisfy wf_events: the side condition of
+   C02_traverse_wf_events_partial is discharged, wf_events is a theorem instead of a per-output check *)
+Theorem C02_traverse_wf_events : forall g w tb o all st t smi open seen, loop_free g -> adj_sym g ->
+  traverse g w tb o all st = Ok t -> flatten g t = Ok smi ->
+  (forall c, In c open -> In c seen) -> (forall c, In c seen -> c <= ws_cycle st) ->
+  let tokens := ds_tokens (tr_dfs t) in
+  let ro := ring_positions tokens smi 0 in
+  wf_events open seen (map (fun a => map snd (atom_closures tokens ro (fst a))) ro).
+Proof. exact traverse_wf_events_full. Qed.
+Print Assumptions C02_traverse_wf_events.
+
+(* every run of the writer on a well-formed molecule: the closure-number invariant (C02_closure_numbers_atom at every atom,
+   numbers in 1..99, open cycles keep their numbers) holds initially, is preserved by every component and by the whole
+   `while True` loop, and each component's closure lists satisfy wf_events for the cycles open / seen so far *)
+Theorem C02_writer_closure_numbers : forall g w tb o tabs, wf_mol g = true ->
+  forall fuel st st', CInv (init_state g) /\
+    (CInv st -> components g w tb o tabs fuel (ids g) st = Ok st' -> CInv st') /\
+    (forall open seen, Inv rng (ws_casted st) (ws_heap st) open seen -> NoDup open -> (forall c, In c seen -> c <= ws_cycle st) ->
+       component g w tb o tabs (ids g) st = Ok st' ->
+       exists t smi, traverse g w tb o (ids g) st = Ok t /\ flatten g t = Ok smi /\ wf_events open seen (events_of t smi) /\ CInv st').
+Proof. exact writer_closure_numbers. Qed.
+Print Assumptions C02_writer_closure_numbers.
+
+(* parentheses are balanced in the token list of ANY traversal (depth never negative, ends at 0) *)
+Theorem C02_flatten_balanced : forall g t smi, flatten g t = Ok smi -> balanced smi.
+Proof. exact flatten_balanced. Qed.
+Print Assumptions C02_flatten_balanced.
